@@ -622,7 +622,9 @@ func (ex *Exec) mapNext(st *State, fr *Frame, in *ssa.Next, it *VIter) Value {
 	if !ok {
 		vis = ConstArr(SArrB, False)
 	}
-	okv := ex.fresh("mapnext.ok", SBool)
+	// deterministic name: the instruction is re-executed after the case split
+	site := fmt.Sprintf("%s!%d", ex.siteName(st, in, "next"), fr.visits[fr.block])
+	okv := Var("mapnext.ok!"+site, SBool)
 	more := ex.decide(st, okv)
 	k := Var("k!mapit", SInt)
 	pk, _ := mapHeapKeys(m.T)
@@ -631,7 +633,7 @@ func (ex *Exec) mapNext(st *State, fr *Frame, in *ssa.Next, it *VIter) Value {
 		st.assume(Forall([]*Term{k}, Implies(And(Neq(m.Ref, IntLit(0)), Select(Select(hp, m.Ref), k)), Select(vis, k))))
 		return &VTuple{Vals: []Value{False, ex.zeroValue(m.T.Key()), ex.zeroValue(m.T.Elem())}}
 	}
-	key := ex.fresh("mapkey", SInt)
+	key := Var("mapkey!"+site, SInt)
 	st.assume(rangeFact(m.T.Key(), key))
 	st.assume(ex.mapPresent(st, st, m, key))
 	st.assume(Not(Select(vis, key)))
@@ -996,11 +998,30 @@ func (ex *Exec) builtinAppend(st *State, instr ssa.Instruction, s *VSlice, morev
 	switch more := morev.(type) {
 	case *VSlice:
 		newLen := Add(s.Len, more.Len)
-		ref := ex.allocRow(st, s.Elem)
 		leaves, err := ex.flattenType(s.Elem)
 		if err != nil {
 			ex.unsupported("%v", err)
 		}
+		// enough capacity: Go appends in place, i.e. writes into the memory the slice is a view of
+		if ml, mok := more.Len.Int64(); mok && ml <= 16 && !(s.Cap.IsIntLit() && s.Len.IsIntLit() && s.Cap.Int.Cmp(s.Len.Int) == 0 && ml > 0) {
+			if ex.decide(st, Ge(s.Cap, newLen)) {
+				if ml > 0 {
+					ex.checkWritable(st, s.Ref, instr)
+				}
+				for _, lf := range leaves {
+					key := heapKey(s.Elem, lf)
+					h := st.heap(key, HeapOf(lf.Sort))
+					row := Select(h, s.Ref)
+					moreRow := Select(h, more.Ref)
+					for i := int64(0); i < ml; i++ {
+						row = Store(row, Idx(s.Off, Add(s.Len, IntLit(i))), Select(moreRow, Idx(more.Off, IntLit(i))))
+					}
+					st.heaps[key] = Store(h, s.Ref, row)
+				}
+				return &VSlice{Ref: s.Ref, Off: s.Off, Len: newLen, Cap: s.Cap, Elem: s.Elem}
+			}
+		}
+		ref := ex.allocRow(st, s.Elem)
 		for _, lf := range leaves {
 			key := heapKey(s.Elem, lf)
 			h := st.heap(key, HeapOf(lf.Sort))
